@@ -96,12 +96,44 @@ def independence_probe(rng, seed_type):
     return None
 
 
+def instance_probe(rng, mode):
+    """the centres of one fitted RbfLiftingFn are generated from ITS data: fitting another lifting function (default
+    centres, or the same centre-generator object passed to both constructors) must not move them"""
+    rs = np.random.RandomState(rng.randint(0, 2 ** 31 - 1))
+    X1 = rs.uniform(-1, 1, (12, 2))
+    X2 = rs.uniform(50, 60, (9, rng.choice([2, 3])))
+    if mode == 'default':
+        lf1, lf2 = pykoop.RbfLiftingFn(), pykoop.RbfLiftingFn()
+    else:
+        shared = pykoop.GridCenters(2) if mode == 'shared-grid' else pykoop.QmcCenters(n_centers=4, random_state=3)
+        lf1, lf2 = pykoop.RbfLiftingFn(centers=shared), pykoop.RbfLiftingFn(centers=shared)
+    tag = {'estimator': 'RbfLiftingFn', 'centers': mode, 'part': 'instances'}
+    lf1.fit(X1)
+    C1 = np.array(lf1.centers_.centers_)
+    T1 = lf1.transform(X1)
+    lo, hi = X1.min(axis=0), X1.max(axis=0)
+    if np.any(C1 < lo - 1e-12) or np.any(C1 > hi + 1e-12):
+        return f'RbfLiftingFn ({mode} centres): generated centres lie outside the range of the data', tag
+    lf2.fit(X2)
+    try:
+        T1b = lf1.transform(X1)
+    except Exception as ex:
+        return (f'RbfLiftingFn ({mode} centres): after fitting ANOTHER lifting function, transform of the first one raises '
+                f'{type(ex).__name__}'), tag
+    C1b = np.array(lf1.centers_.centers_)
+    if C1b.shape != C1.shape or not np.array_equal(C1b, C1) or not np.array_equal(T1b, T1):
+        return (f'RbfLiftingFn ({mode} centres): fitting ANOTHER lifting function moved the centres of the first one '
+                f'(now in [{C1b.min():.3g}, {C1b.max():.3g}], its data lie in [{lo.min():.3g}, {hi.max():.3g}])'), tag
+    return None
+
+
 def run(ctx):
     ctx.rule = ('integer data with 1..5 features: (a) range / grid / shape of all 7 centre generators (GridCenters compared '
                 'with the exact-rational model incl. meshgrid order; random ones: shape (n_centers_, n_features), range '
                 'membership, DataCenters = data) for counts incl. 1, symmetric range, QMC engines, int / RandomState seeds; '
                 '(b) RbfLiftingFn.transform vs the Lean Float formula for all 7 radial functions, shape, offset incl. None, '
-                'callables, n_inputs 0 and > 0; (c) cross-feature independence probe')
+                'callables, n_inputs 0 and > 0; (c) cross-feature independence probe; (d) two lifting functions with default / '
+                'shared centre generators fitted one after the other: the first keeps its own centres')
     ctx.explanation = ('theorems C18_* about the exact-rational model of ranges, linspace, the grid (completeness and count) and '
                        'range scaling, the RBF layout and the stream model; correspondence exact / 1e-12; sampling distributions '
                        'trusted; independence defect with integer seeds is a known finding')
@@ -203,6 +235,11 @@ def run(ctx):
             ctx.count('independence:' + st)
             if res:
                 ctx.fail(res[0], {'probe': 'independence'}, res[1])
+    for mode in ('default', 'shared-grid', 'shared-qmc'):
+        res = instance_probe(ctx.rng, mode)
+        ctx.count('instances:' + mode)
+        if res:
+            ctx.fail(res[0], {'probe': 'instances', 'mode': mode}, res[1])
     return ctx.finish('proof', None)
 
 
